@@ -21,8 +21,6 @@ from bounded import c01_cases as cc
 MODULE = "checks.bounded_C01"
 
 FAILURES = ("returns-non-tree", "returns-open-tree", "returns-non-derivation-tree",
-            "root-is-<start>-instead-of-requested-start-symbol",
-            "requested-start-symbol-wrapped-in-<start>-node-that-is-no-rule",
             "string-not-in-language", "violates-constraint")
 
 
@@ -34,12 +32,7 @@ def tree_failures(call: Dict[str, Any]) -> List[str]:
     if call["open"]:
         out.append("returns-open-tree")
     if not call["valid"]:
-        if call.get("wrapped") == "valid-under-<start>":
-            out.append("root-is-<start>-instead-of-requested-start-symbol")
-        elif call.get("wrapped") == "not-a-rule":
-            out.append("requested-start-symbol-wrapped-in-<start>-node-that-is-no-rule")
-        else:
-            out.append("returns-non-derivation-tree")
+        out.append("returns-non-derivation-tree")
     if call["member"] is False:
         out.append("string-not-in-language")
     if call["eval"] is False and call["exact"]:
@@ -65,15 +58,16 @@ def _sanity(rep) -> None:
     bad_tree = T("<start>", (T("<assgn>", (T("x", ()),)),))
     r4 = cc.check_tree(case, bad_tree, f_true)
     r5 = cc.check_tree(dict(grammar="assgn", start_symbol="<stmt>"), good, f_true)
-    r5["wrapped"] = None
+    r6 = cc.check_tree(dict(grammar="assgn", start_symbol="<assgn>"), good, f_true)
     ok = (tree_failures(r1) == ["violates-constraint"] and tree_failures(r2) == []
           and "returns-open-tree" in tree_failures(r3)
           and "returns-non-derivation-tree" in tree_failures(r4)
-          and "returns-non-derivation-tree" in tree_failures(r5)
+          and tree_failures(r5) == [] and r5["wrapped"] == "effective-grammar"
+          and "returns-non-derivation-tree" in tree_failures(r6)
           and tree_failures(dict(kind="non-tree")) == ["returns-non-tree"])
-    rep.section("sanity", contract_evaluator_sanity_cases=6, passed=bool(ok))
+    rep.section("sanity", contract_evaluator_sanity_cases=7, passed=bool(ok))
     if not ok:
-        rep.checker_error(f"C01 sanity cases gave unexpected verdicts: {r1} {r2} {r3} {r4} {r5}")
+        rep.checker_error(f"C01 sanity cases gave unexpected verdicts: {r1} {r2} {r3} {r4} {r5} {r6}")
 
 
 def _describe(rep, tier: str, info: Dict[str, Any]) -> None:
@@ -170,7 +164,11 @@ def run(rep, tier: str, seed: int) -> None:
                     rep.section("solutions", membership_not_checked_string_too_long=1)
             for failure in failures:
                 all_failures.append(dict(cid=cid, failure=failure, call=i, result=call.get("str")))
-                sig_class = cc.family(case["cls"]) if "start" in failure else case["cls"]
+                # with a requested start symbol the constant `start` is bound to the initial
+                # tree of that symbol while model values are parsed as <start>: one cause,
+                # whatever the constraint class
+                sig_class = ("requested-start-symbol" if case["start_symbol"] and failure == "violates-constraint"
+                             else case["cls"])
                 rep.violation(
                     f"solve:{failure}:{sig_class}",
                     f"grammar {case['grammar']} constraint {case['text']!r} settings {cc.settings_key(case['settings'])} "
